@@ -49,6 +49,19 @@ func H_l3_size_rel() {
 	ba, _ := a.Marshal()
 	bb, _ := b.Marshal()
 	vAssert(vNativeTrue(vAbsDiff(len(ba), len(bb)) <= 16), "C17.length-independent.bytes(native)")
+	if vParamDef("pre", 0) > 0 {
+		// the size of an index is a function of its key set, not of what was built before it
+		big := vSweep(vParam("pre"))
+		_, err3 := NewSlimTrie(encode.Dummy{}, big, nil)
+		a2, err4 := NewSlimTrie(encode.Dummy{}, k2, nil)
+		vAssert(err3 == nil && err4 == nil, "build-ok")
+		if err4 == nil {
+			vAssert(vMeasure(a2.inner) == ma, "C17.size-independent-of-history")
+			vAssert(vDeepEqual(a2.inner, a.inner), "C17.size-independent-of-history")
+			b2, _ := a2.Marshal()
+			vAssert(vNativeTrue(len(b2) == len(ba)), "C17.size-independent-of-history.bytes(native)")
+		}
+	}
 	vObserve("measure", ma)
 	vReach("end")
 }
